@@ -196,3 +196,9 @@ pub fn seed32(parts: &[u64]) -> [u8; 32] {
     }
     out
 }
+
+/// Rotation offset for affinity masks so that concurrently running worker
+/// processes do not all pin themselves to the same low-numbered CPUs.
+pub fn rot() -> usize {
+    std::process::id() as usize
+}
